@@ -25,11 +25,11 @@ import (
 )
 
 func init() {
-	Register(&Rule{Name: "ASM", Floor: 40, Configs: []string{"amd64"}, Run: runAsm,
+	Register(&Rule{Name: "ASM", Floor: 50, Configs: []string{"amd64"}, Run: runAsm,
 		Doc: "every body-less kernel declaration has a TEXT symbol and vice versa; frame offsets match the Go signatures; the constants in the assembly equal the Go constants; kernels store only through their destination pointer (loaded once from z+0(FP)) or into result slots; the 4x unrolled bodies equal the tail loop instantiated four times; the inlined copies of div10W equal div10W"})
-	Register(&Rule{Name: "ASM-PURE", Floor: 12, Configs: []string{"purego", "386"}, Run: runAsmPure,
+	Register(&Rule{Name: "ASM-PURE", Floor: 6, Configs: []string{"purego", "386"}, Run: runAsmPure,
 		Doc: "in the pure-Go configurations every kernel wrapper forwards its own parameters in order to the _g twin of the same name and returns its results in order"})
-	Register(&Rule{Name: "BUILDTAGS", Floor: 4, Run: runBuildTags,
+	Register(&Rule{Name: "BUILDTAGS", Floor: 2, Run: runBuildTags,
 		Doc: "the assembly declarations and the pure-Go wrappers are selected by complementary build constraints, the .s file by the same constraint as the body-less declarations, and no other non-test file of the package is build-conditional or branches on the architecture"})
 }
 
